@@ -1,6 +1,6 @@
 (* C01 - IR ownership and pin-wire links stay mutually consistent under any edit history.
    Property theorems only; each is closed by [exact] of a lemma proved under Proofs/. *)
-From Coq Require Import List Permutation.
+From Coq Require Import List Permutation NArith.
 From SV Require Import Base.Base IR.State IR.NS IR.Ops Proofs.Inv1a Proofs.C01_lemmas
   Proofs.Inv2a Proofs.InvP Proofs.InvW Proofs.C01_full.
 
@@ -50,3 +50,29 @@ Example C01_nonvacuous :
   wpins s 7 = (POut 5 2 :: PIn 3 :: nil) /\ keys s 5 = (2 :: 3 :: nil) /\ drefs s 0 = (5 :: nil) /\
   pin_wire s (POut 5 2) = Some 7.
 Proof. exact sample_reachable. Qed.
+
+(* "whatever sequence of calls is made": histories that mix editing calls (any outcome) with the
+   transformations - Definition.clone, uniquify, flatten, each run to completion. From the empty
+   store, after any such history the whole invariant holds (containers, parents, pin-wire links,
+   reference sets, outer-pin tables); [xrun] gives None only when a transformation raised or its
+   walk ran out of fuel. Proofs/XHistory.v over Proofs/CloneFull.v (clone, uniquify) and
+   Proofs/XformInv.v (flatten). *)
+From SV Require Import Xform.Clone Xform.Xform Proofs.XHistory.
+Theorem C01_mixed_histories : forall l u f x', xrun l (mkX init u f) = Some x' -> Inv (st x').
+Proof. exact xrun_inv. Qed.
+Print Assumptions C01_mixed_histories.
+
+(* non-vacuity: edits, a clone, uniquify, another edit, flatten and a clone of the flattened top all complete *)
+Example C01_mixed_sample :
+  let ops := (ONew KNetlist None nil :: OCreate RLibs 0 None nil 0 None :: OCreate RDefs 1 (Some (76%N :: nil)) nil 0 None ::
+              OCreate RPorts 2 (Some (112%N :: nil)) nil 1 None :: OCreate RDefs 1 (Some (77%N :: nil)) nil 0 None ::
+              OCreate RChildren 5 (Some (105%N :: nil)) nil 0 (Some 2) :: OCreate RCables 5 (Some (99%N :: nil)) nil 1 None ::
+              OConnect 8 (POut 6 4) None :: OCreate RDefs 1 (Some (84%N :: nil)) nil 0 None ::
+              OCreate RChildren 9 (Some (97%N :: nil)) nil 0 (Some 5) :: OCreate RChildren 9 (Some (98%N :: nil)) nil 0 (Some 5) ::
+              OSetTop 0 (TopDef 9) :: nil) in
+  let h := (map XEdit ops ++ XCloneDef 5 :: XUniquify 20 0 :: XEdit (ODisconnect 8 (POut 6 4)) :: XFlatten 50 0 :: XCloneDef 9 :: nil)%list in
+  match xrun h (mkX init 0 0) with
+  | Some x => next (st x) = 28 /\ kids (st x) RChildren 9 = (20 :: 6 :: nil) /\ kids (st x) RDefs 1 = (2 :: 5 :: 17 :: 9 :: nil)
+  | None => False
+  end.
+Proof. vm_compute. repeat split. Qed.
